@@ -170,6 +170,8 @@ func (r *CheckRun) harnessCfg(fn *ssa.Function) (Cfg, []string, []string) {
 				cfg.MaxTimerFires = n
 			case "solverms":
 				cfg.SolverTimeoutMs = n
+			case "maporder":
+				cfg.MapOrderIn = v
 			case "maprev":
 				cfg.MapOrderReverse = n != 0
 			}
@@ -456,6 +458,20 @@ func (r *CheckRun) validate() (problems []string) {
 				continue
 			}
 			ok, detail := violationReproduced(j.path, j.out)
+			if !ok && j.hr.Cfg.MapOrderIn != "" {
+				// the counterexample depends on Go's (random) map iteration order: the
+				// native run is repeated a few times
+				for try := 0; try < 8 && !ok; try++ {
+					again := &replayJob{hr: j.hr, path: j.path}
+					if err := r.runNative(dir, []*replayJob{again}); err != nil || again.out == nil {
+						break
+					}
+					ok, detail = violationReproduced(j.path, again.out)
+					if ok {
+						detail += fmt.Sprintf(" (map-order dependent, reproduced on native run %d)", try+2)
+					}
+				}
+			}
 			ro := ReplayOutcome{Reproduced: ok, Detail: detail, Signature: pathSignature(j.path), Assertion: j.path.Violated}
 			if j.path.Outcome == outcomePanic {
 				ro.Assertion = "no-panic"
